@@ -15,6 +15,10 @@ iter_axis, asarray False / True), `ilist` (ImageList.from_image + list indexing,
 iteration), `fromarray`, `pslice` (xslice / yslice / zslice + bounding_box), `bbox`, `prog`
 (operations applied to any earlier object of a store, interleaved), `ornt` / `orntm`
 (the loop of nibabel's io_orientation on the polar factor; monomial affines in full).
+Third part (harness/props/c02_ext.py, lean/NipyVerif/Model/C02C.lean): `progx` (programs over the
+whole operation language: every index kind, rollimg fix0, ImageList items, re-observation, data access),
+`acm` / `grid` / `fromshape` (ArrayCoordMap, Grid), `xyzaff` (xyz_affine), `ornto` (io_orientation of
+affines with orthogonal columns, no SVD), `rt` (round trips).
 """
 from __future__ import annotations
 
@@ -56,7 +60,7 @@ def gen_image(rng, small=False, nd=None):
     nout = nd + (1 if rng.random() < 0.1 else 0)
     inn = rng.choice(IN_POOLS)[:nd]
     outn = rng.choice(OUT_POOLS)[:nout]
-    kind = rng.choice(["diag", "flip", "perm", "oblique", "oblique", "zerotr", "dyadic"])
+    kind = rng.choice(["diag", "flip", "perm", "oblique", "oblique", "zerotr", "dyadic", "shear", "rot"])
     A = np.zeros((nout, nd))
     vals = [1, 2, 3, 4, 5, 0.5, 1.5, 0.25]
     if kind in ("diag", "flip", "zerotr", "dyadic"):
@@ -66,6 +70,24 @@ def gen_image(rng, small=False, nd=None):
                 A[k, k] = -A[k, k]
         if kind == "zerotr":
             A[nd - 1, nd - 1] = 0
+    elif kind == "shear":
+        # diagonal plus one or two off-diagonal entries: one axis leaks into another world coordinate
+        # (gantry tilt; ImageList.from_image with and without dropout must keep the leak)
+        for k in range(nd):
+            A[k, k] = rng.choice([1, 2, 3, -2, 0.5])
+        for _ in range(rng.choice([1, 1, 2])):
+            r_, k_ = rng.randrange(nout), rng.randrange(nd)
+            if r_ != k_:
+                A[r_, k_] = rng.choice([1, -1, 0.5, 2, -0.25])
+    elif kind == "rot":
+        # an in-plane rotation with integer entries (3-4-5 ...) times zooms: orthogonal columns
+        for k in range(nd):
+            A[k, k] = rng.choice([1, 2, 3, -2, 0.5])
+        if nd >= 2:
+            i_, j_ = rng.sample(range(nd), 2)
+            a_, b_ = rng.choice([(3, 4), (4, 3), (1, 2), (5, 12), (2, 1)])
+            z1, z2 = rng.choice([1, 0.5, 2]), rng.choice([1, 0.25, 3])
+            A[i_, i_], A[j_, i_], A[i_, j_], A[j_, j_] = a_ * z1, b_ * z1, -b_ * z2, a_ * z2
     elif kind == "perm":
         p = list(range(nd)); rng.shuffle(p)
         for k in range(nd):
@@ -79,8 +101,17 @@ def gen_image(rng, small=False, nd=None):
     aff[:nout, :nd] = A
     aff[:nout, nd] = b
     aff[nout, nd] = 1
+    n = int(np.prod(shape))
+    base = rng.choice([0, 0, 7, -5])
+    # the same numbers in other dtypes (when they fit) and memory layouts
+    dt = rng.choice(["f8", "f8", "i8", "f4", "i4", "i2", "i1", "u1", "u2", "u4"])
+    lo, hi = {"f8": (-2**52, 2**52), "f4": (-2**23, 2**23), "i8": (-2**62, 2**62)}.get(
+        dt, (np.iinfo(dt).min, np.iinfo(dt).max) if dt[0] in "iu" else (0, 0))
+    if not (lo <= base and base + n - 1 <= hi):
+        dt = "i8"
     return {"shape": shape, "in": inn, "out": outn, "aff": aff.tolist(),
-            "base": rng.choice([0, 0, 7, -5]), "dtype": rng.choice(["f8", "i8"])}
+            "base": base, "dtype": dt,
+            "layout": rng.choice(["C", "C", "F", "strided", "neg", "readonly", "offset"])}
 
 
 def gen_atom(rng, n, bad=False):
@@ -252,10 +283,35 @@ def gen_lops(rng, nitems, nd_item):
 def build_image(spec):
     from nipy.core.api import AffineTransform, CoordinateSystem, Image
     n = int(np.prod(spec["shape"]))
-    data = (np.arange(n, dtype=spec.get("dtype", "f8")) + spec.get("base", 0)).reshape(spec["shape"])
+    data = (np.arange(n, dtype="i8") + spec.get("base", 0)).astype(spec.get("dtype", "f8")).reshape(spec["shape"])
+    data = with_layout(data, spec.get("layout", "C"))
     cmap = AffineTransform(CoordinateSystem(spec["in"], "voxels"), CoordinateSystem(spec["out"], "world"),
                            np.array(spec["aff"], dtype=float))
     return Image(data, cmap), data
+
+
+def with_layout(data, layout):
+    """the same array values in another memory layout (what `Image` is handed is a view)"""
+    if layout == "F":
+        return np.asfortranarray(data)
+    if layout == "strided":          # every second element of a larger buffer along every axis
+        big = np.zeros(tuple(2 * s for s in data.shape), dtype=data.dtype)
+        view = big[tuple(slice(None, None, 2) for _ in data.shape)]
+        view[...] = data
+        return view
+    if layout == "neg":              # negative strides along every axis
+        rev = tuple(slice(None, None, -1) for _ in data.shape)
+        return np.ascontiguousarray(data[rev])[rev]
+    if layout == "offset":           # a window of a larger buffer
+        big = np.zeros(tuple(s + 2 for s in data.shape), dtype=data.dtype)
+        view = big[tuple(slice(1, s + 1) for s in data.shape)]
+        view[...] = data
+        return view
+    if layout == "readonly":
+        d = np.array(data, copy=True)
+        d.setflags(write=False)
+        return d
+    return data
 
 
 def fresh_copy(img):
@@ -348,20 +404,60 @@ def xyz_params(img):
     return o0, o1, o2
 
 
+ARG_MUT = []
+
+
 def apply_op(img, op):
     """run one operation of the real code; returns the result (Image or array scalar; for
-    iter_axis the list of what the generator yields with asarray=False)"""
+    iter_axis the list of what the generator yields with asarray=False).  Arguments the caller
+    hands over (order lists, slice tuples) are compared with a copy afterwards: a change is noted in
+    `ARG_MUT` (read and cleared by `one_op`)."""
+    import copy as _copy
+    held = []
+
+    def keep(x):
+        held.append((x, _copy.deepcopy(x)))
+        return x
+    res = None
+    try:
+        res = _apply_op(img, op, keep)
+        return res
+    finally:
+        for now, before in held:
+            if repr(now) != repr(before):
+                ARG_MUT.append(f"{op[0]} changed the argument it was given: {before!r} -> {now!r}")
+        # "the result is a value": editing the list the caller handed over afterwards, or the affine
+        # array of the result in place, moves neither the result nor the source
+        if hasattr(res, "coordmap") and res is not img:
+            st, st_src = t_state(res), t_state(img)
+            for now, _ in held:
+                if isinstance(now, list) and len(now) > 1:
+                    now.reverse()
+            if t_state(res) != st:
+                ARG_MUT.append(f"{op[0]}: the result changed when the caller edited the order list afterwards")
+            A = res.coordmap.affine
+            if isinstance(A, np.ndarray) and A.flags.writeable:
+                old = A.copy()
+                A[:-1, -1] += 1
+                moved = t_state(img) != st_src
+                A[...] = old
+                if moved:
+                    ARG_MUT.append(f"{op[0]}: the result shares its affine array with its source (an in-place "
+                                   f"edit of the result's affine moved the source)")
+
+
+def _apply_op(img, op, keep):
     from nipy.core.image import image as im
     from nipy.core.image.image_spaces import as_xyz_image
     k = op[0]
     if k == "G":
         if op[2] == "sub":
             return im.subsample(img, im.slice_maker[py_slicer(op[1], False)])
-        return img[py_slicer(op[1], op[2])]
+        return img[keep(py_slicer(op[1], op[2]))]
     if k == "RA":
-        return img.reordered_axes(None if op[1] is None else list(op[1]))
+        return img.reordered_axes(None if op[1] is None else keep(list(op[1])))
     if k == "RR":
-        return img.reordered_reference(None if op[1] is None else list(op[1]))
+        return img.reordered_reference(None if op[1] is None else keep(list(op[1])))
     if k == "NA":
         return img.renamed_axes(**{a: b for a, b in op[1]})
     if k == "NR":
@@ -485,11 +581,23 @@ def t_ornt(o):
     return f"{len(o)} " + " ".join(t_opt(v) for v in o) if o else "0"
 
 
+def is_orth(aff, fix0):
+    """columns of the linear part (after _fix0 when asked) are mutually orthogonal and every
+    comparison io_orientation makes on them is decided with a margin (see c02_ext.orth_status)"""
+    from nipy.core.reference.coordinate_map import _fix0
+    from harness.props import c02_ext
+    a = np.asarray(_fix0(aff) if fix0 else aff, dtype=float)[:-1, :-1]
+    return a.size > 0 and c02_ext.orth_status(a) == "orth"
+
+
 def t_orntsrc(aff, fix0=True):
-    """`M` (the model computes the orientation itself) for affines with a monomial linear part,
-    otherwise the orientation nibabel computed"""
+    """`M` (the model computes the orientation itself) for affines with a monomial linear part, `Q`
+    (the same, without SVD) for affines with mutually orthogonal columns, otherwise the orientation
+    nibabel computed"""
     if is_monomial(aff, fix0):
         return "M"
+    if is_orth(aff, fix0):
+        return "Q"
     return t_ornt(ornt_of(aff, fix0))
 
 
@@ -527,6 +635,8 @@ def t_op(op, img):
         head = f"XY {len(pairs)} " + " ".join(f"{a} {b}" for a, b in pairs)
         if is_monomial(img.affine, False):
             return head + " M"
+        if is_orth(img.affine, False):
+            return head + " Q"
         o0, o1, o2 = xyz_params(img)
         return head + f" O {t_ornt(o0)} {t_ornt(o1)} {t_ornt(o2)}"
     raise ValueError(k)
@@ -660,7 +770,7 @@ def _tok_same(x, y):
 class C02(PropertyCheck):
     id = "C02"
     title = "Image manipulations keep every value at its world position"
-    lean_modules = ["NipyVerif.Props.C02", "NipyVerif.Props.C02B"]
+    lean_modules = ["NipyVerif.Props.C02", "NipyVerif.Props.C02B", "NipyVerif.Props.C02C"]
     driver = "Drivers/C02.lean"
     rule = ("a case is an image (1..5-D incl. all-singleton and one-proper-axis shapes, arange data, integer/"
             "dyadic affine: diagonal, flipped, signed permutation, oblique, zero-TR; optional extra output "
@@ -671,16 +781,36 @@ class C02(PropertyCheck):
             "list operations, (fromarray / pslice / bbox / ornt / orntm) the helpers; every ndim 1..5 x every "
             "axis identifier (int incl. negative and out of range, input name, output name, unknown) x asarray "
             "x dropout is enumerated on fixed images in both tiers; thorough adds every slice atom of one axis "
-            "for shapes (3), (2,3), (3,3,2). Non-trivial = at least one operation succeeded and the image has "
-            "more than one voxel; distinct by JSON of the case")
+            "for shapes (3), (2,3), (3,3,2). Wave 3: arange data presented in f8 / f4 / i8 / i4 / i2 / i1 / u1 / u2 / "
+            "u4 (when the values fit) and as C / Fortran / strided / negative-stride / offset-window / read-only "
+            "arrays; sheared (one axis leaking into another world coordinate) and rotated (3-4-5 x zooms) "
+            "affines; (progx) programs of 2..10 instructions on ANY object made so far over the whole operation "
+            "language - every history operation, index tuples holding None / lists / arrays / floats / strings / "
+            "NumPy integer scalars, rollimg(..., fix0), ImageList.from_image(axis, dropout)[a:b:c]...[i], "
+            "re-observation of earlier objects, get_fdata / np.asarray / __array__, iter_axis(asarray=True) "
+            "elements, from_image(...).get_list_data(axis); (acm) ArrayCoordMap(cmap, shape)[index] alone incl. "
+            "refusals on several axes at once, empty source axes, all-integer indices, with values / "
+            "transposed_values; (grid / fromshape) Grid[np.ogrid notation: real, negative, complex steps, missing "
+            "stop, zero step, wrong number of slices, integer and float bounds] and ArrayCoordMap.from_shape; "
+            "(xyzaff) xyz_affine on 2..5-D images; (ornto) io_orientation on integer / dyadic matrices with "
+            "mutually orthogonal columns; (rt) round trips rollimg(a, s) / back, rollaxis / inverse, reorder / "
+            "inverse order, rename / back, shuffle / synchronized_order. Non-trivial = at least one operation "
+            "succeeded and the image has more than one voxel; distinct by JSON of the case")
     assumptions = [
         "nibabel.io_orientation: the SVD (polar factor R of the column-normalised linear part) is a parameter; "
         "the loop after it (processing order, allclose test, argmax with ties, row zeroing) is modelled and "
         "compared with nibabel on every generated affine; for affines whose linear part is monomial (scaled "
         "signed partial permutation, incl. zero-TR through _fix0) the model computes the whole orientation "
-        "itself (R = sign pattern) and no parameter is passed; for other affines the harness passes the "
-        "orientations computed for the very affines the implementation sees, and the theorems hold for every "
-        "value of that parameter",
+        "itself (R = sign pattern) and no parameter is passed; for affines whose columns are mutually "
+        "orthogonal (rotations x zooms; `Q` in the protocol) the model computes the orientation itself too, "
+        "in rational arithmetic on squared entries (orthOrnt; proved equal to the loop run on the "
+        "column-normalised matrix, which is a partial isometry and hence its own polar factor - that last "
+        "step, uniqueness of the polar factor, is linear algebra not formalised, compared numerically on every "
+        "case); the harness uses `Q` only when every comparison of the loop is decided with a margin (unique "
+        "largest entry per column, different columns prefer different rows): on exact ties floating-point "
+        "rounding inside the SVD decides and the orientation is passed as a parameter; for all other affines "
+        "the harness passes the orientations computed for the very affines the implementation sees, and the "
+        "theorems hold for every value of that parameter",
         "np.dot with the selection / permutation / scaling matrices built by _slice, reordered_domain/range "
         "is modelled by its column/row action (exact on the integer and dyadic affines generated)",
         "NumPy basic indexing / transpose / rollaxis are compared through the data they return (arange data, "
@@ -694,10 +824,38 @@ class C02(PropertyCheck):
         "the model follows the code with proposed_fixes/C02-*.patch applied (negative axis numbers)",
         "get_list_data is modelled for lists whose items have one shape (what from_image and list slicing "
         "produce); NumPy broadcasting of unequal items is outside the model",
+        "index kinds: a list / integer array entry is modelled as an in-range fancy index (NumPy accepts it, "
+        "ArrayCoordMap refuses it); boolean scalars / boolean arrays as indices are not generated; NumPy "
+        "integer scalars are plain integers to the model",
+        "np.ogrid (inside Grid.__getitem__) is modelled by its documented arithmetic: ceil((stop-start)/step) "
+        "points for a real step, n points for a step nj, missing stop -> AttributeError (NumPy's fallback on "
+        "the tuple), zero step -> ZeroDivisionError; only tuple indices (what from_shape passes) are modelled, "
+        "a bare slice (np.ogrid then returns one array that nipy iterates element-wise) is not",
+        "memory layout and dtype of the data array are invisible to the model (values only): the harness "
+        "presents the same numbers in nine dtypes and six layouts and compares values",
     ]
-    level_note = ("as_xyz_image and output-name axis resolution are proved for every value of the "
-                  "io_orientation parameter (they can only reorder or refuse); the SVD inside io_orientation "
-                  "is not modelled (monomial affines need none)")
+    level_note = ("proved (Lean, all inputs): slice arithmetic and the index map of every slice tuple; reorder / "
+                  "rename / rollimg / rollaxis / synchronized_order / iter_axis (partition) / ImageList "
+                  "(from_image partition with and without dropout, list slicing / indexing / setitem, "
+                  "get_list_data bijection) / subsample / fromarray / make_xyz_image / plane slices / "
+                  "bounding_box; `history_sound` (linear histories) and `prog_sound` (programs over the whole "
+                  "operation language on a store of objects, incl. every index kind, rollimg fix0, ImageList "
+                  "items, data access: every object and every outcome is derived from the original image - "
+                  "values at their named world coordinates, nothing duplicated or invented - and objects "
+                  "never change); ArrayCoordMap.__getitem__ (= the coordinate map of the image slice, own "
+                  "error order), values / transposed_values, Grid / from_shape world positions; xyz_affine "
+                  "gives the x, y, z of every voxel; as_xyz_image's result is xyz-affable; rollimg(a) / "
+                  "rollimg(0, a+1) and reorder / inverse-order round trips give the image back; naturality in "
+                  "the voxel values. parameters: the io_orientation result for affines that are neither "
+                  "monomial nor (decisively) orthogonal-columned - as_xyz_image and output-name axis resolution "
+                  "are proved for every value of it (they can only reorder or refuse). For orthogonal columns "
+                  "the orientation is computed by the model (orth_ornt_is_io_orientation_loop, "
+                  "orth_columns_partial_isometry); the identification of nibabel's SVD-based polar factor with "
+                  "the normalised matrix is numerical. oracle-only: 'the original is left unchanged' on the "
+                  "real objects (byte digests, fresh-copy comparison, re-observation), refusal classes of "
+                  "requests outside the quantifier, dtype / memory layout independence, Image.__eq__ / "
+                  "coordmap equality of results, that caller-supplied order lists / index tuples are not "
+                  "modified")
 
     # ------------------------------------------------------------------
     def fixed_images(self):
@@ -821,6 +979,8 @@ class C02(PropertyCheck):
             # io_orientation
             spec = gen_image(rng, small=True)
             cases.append({"kind": "ornt", "aff": spec["aff"], "fix": rng.random() < 0.5})
+        from harness.props import c02_ext
+        cases.extend(c02_ext.generate(rng, tier))
         if tier == "thorough":
             for shape in ([3], [2, 3], [3, 3, 2]):
                 spec0 = {"shape": shape, "in": list("ijk")[: len(shape)], "out": list("xyz")[: len(shape)],
@@ -932,6 +1092,9 @@ class C02(PropertyCheck):
         ch = snap.changed()
         if ch:
             mut = f"{what} changed its input image ({ch})"
+        if ARG_MUT:
+            mut = mut or f"{what}: " + ARG_MUT[0]
+            del ARG_MUT[:]
         tag = f"{op[0]}:ok" + ("" if exp == "ok" else f"({exp})") + (":asarray" if asarr else "")
         if op[0] == "XY":
             from nipy.core.image.image_spaces import is_xyz_affable
@@ -956,6 +1119,11 @@ class C02(PropertyCheck):
             return self._slice(case)
         if kind in ("iter", "ilist", "fromarray", "pslice", "bbox", "ornt", "mkxyz"):
             return getattr(self, "_" + kind)(case)
+        if kind in ("progx", "acm", "grid", "fromshape", "xyzaff", "ornto", "rt"):
+            from harness.props import c02_ext
+            if kind == "progx" and "gen" in case:
+                case = c02_ext.materialise_progx(case)
+            return c02_ext.RUNNERS[kind](self, case)
         c = self.materialise(case)
         if kind == "prog":
             return self._prog(c)
@@ -1109,7 +1277,7 @@ class C02(PropertyCheck):
         if in_ax is not None and n >= 2 and -n <= in_ax < n:
             from nipy.core.image.image import rollimg
             sl_aff = np.asarray(rollimg(img0, in_ax)[0].affine)     # _slice zeroes length-1 axes
-            os_txt = "M" if is_monomial(sl_aff, False) else t_ornt(ornt_of(sl_aff, False))
+            os_txt = t_orntsrc(sl_aff, False)
             # the output axis to drop is still the closest output of a remaining input axis
             # (rank-deficient / strongly oblique affine): dropping it is contradictory, any refusal is legal
             o_full = ornt_of(img0.affine, True)
@@ -1307,6 +1475,14 @@ class C02(PropertyCheck):
                     want[:, k] = idx[:, k] * (1.0 if zooms is None else zooms[k - 3])
                 if not np.allclose(w, want) or not np.array_equal(np.asarray(img.get_fdata()), data):
                     fail = "make_xyz_image: a voxel is not where the xyz affine / the zooms put it"
+                # round trip: when xyz_affine accepts the image, it gives the matrix back
+                from nipy.core.image.image_spaces import xyz_affine
+                try:
+                    back = np.asarray(xyz_affine(img))
+                except Exception:
+                    back = None
+                if back is not None and not np.array_equal(back, xyz):
+                    fail = fail or f"xyz_affine(make_xyz_image(data, A, world)) = {back.tolist()} differs from A"
         except Exception as e:   # noqa: BLE001
             ob = "E " + errname(e)
             if valid:
@@ -1461,10 +1637,17 @@ class C02(PropertyCheck):
 
     def shrink(self, case):
         kind = case.get("kind")
-        if kind not in ("seq", "prog", "iter", "ilist"):
+        if kind == "rt":
+            yield {"kind": "seq", "img": case["img"], "ops": case["ops"]}
+            yield {"kind": "seq", "img": case["img"], "ops": case["ops"][:1]}
+        if kind not in ("seq", "prog", "iter", "ilist", "progx", "rt"):
             return
         import harness.overlay  # noqa: F401
-        c = self.materialise(case)
+        if kind == "progx":
+            from harness.props import c02_ext
+            c = c02_ext.materialise_progx(case) if "gen" in case else case
+        else:
+            c = self.materialise(case)
         if "gen" in case:
             yield c
         spec = c["img"]
@@ -1492,6 +1675,20 @@ class C02(PropertyCheck):
                     if s == 0:
                         yield {"kind": "seq", "img": spec, "ops": [op]}
                 yield {"kind": "prog", "img": spec, "instrs": [i for i in ins if i[0] == 0]}
+        elif kind == "progx":
+            ins = c["instrs"]
+            if len(ins) > 1:
+                yield {"kind": "progx", "img": spec, "instrs": ins[:-1]}
+                # one instruction dropped (later sources renumbered when it made an object)
+                for i in range(len(ins) - 1):
+                    if not any(s_ > 0 for s_, _ in ins[i + 1:]):
+                        yield {"kind": "progx", "img": spec, "instrs": ins[:i] + ins[i + 1:]}
+                yield {"kind": "progx", "img": spec, "instrs": [i for i in ins if i[0] == 0]}
+                for s_, pop in ins:
+                    if s_ == 0:
+                        yield {"kind": "progx", "img": spec, "instrs": [[0, pop]]}
+                        if pop[0] == "B":
+                            yield {"kind": "seq", "img": spec, "ops": [pop[1]]}
         elif kind == "ilist":
             if c["lops"]:
                 yield dict(c, lops=c["lops"][:-1])
@@ -1504,6 +1701,8 @@ class C02(PropertyCheck):
             yield with_img(base=0)
         if spec.get("dtype", "f8") != "f8":
             yield with_img(dtype="f8")
+        if spec.get("layout", "C") != "C":
+            yield with_img(layout="C")
 
     finding_keys = {
         "from-image-singleton-axis":
